@@ -486,6 +486,96 @@ static void meas_gen(Ctx& ctx) {
     });
 }
 
+// ------------------------------------------------------------------------------------------- measurements on a given spectrum
+// thd / snr / sinad also take a precalculated one-sided spectrum (SinadType::Psd / Power; bin k of n <-> frequency k/(2n) cycles per
+// sample).  A synthetic spectrum - a symmetric lobe of known total power at the fundamental bin b1 and at each harmonic bin (k+1) b1,
+// folded into the Nyquist range when `aliased` is asked for, nothing else - has an exact answer: the harmonic-to-fundamental power
+// ratio, the lobe centres as frequencies, -inf dB for harmonics beyond Nyquist when aliasing is off.  Scaling the spectrum changes
+// nothing.  (The spectrum is the caller's, so no window or periodogram convention of the library enters the oracle.)
+VK_SUB(mspec, "measure_spectrum");
+static void mspec_check(const Json& c, Out& o) {
+    const int n = c.geti("n"), b1 = c.geti("b1"), nh = c.geti("h"), w = c.geti("w"), aliased = c.geti("aliased"), type = c.geti("type");
+    Rng r(c.getu("seed"));
+    const int ncomp = nh + 1;
+    std::vector<int> bins;
+    std::vector<ld> pw;
+    std::vector<char> present;
+    for (int k = 0; k < ncomp; ++k) {
+        long b = long(k + 1) * b1;
+        bool pres = true;
+        if (b >= n) {
+            if (!aliased) pres = false;
+            else { long f = b % (2L * n); b = f > n ? 2L * n - f : f; }
+        }
+        bins.push_back(int(b));
+        present.push_back(pres);
+        pw.push_back(k == 0 ? 1.0L : powl(10.0L, -(10.0L + 30.0L * ld(r.uni())) / 10));
+    }
+    // premise: every present lobe inside (w+2 .. n-w-3) and at least 2w+4 bins from every other one; the harmonic search (round(f n))
+    // must land inside its lobe, which it does because the lobe centres are the exact multiples / folds
+    for (int k = 0; k < ncomp; ++k) {
+        if (!present[size_t(k)]) continue;
+        if (bins[size_t(k)] < w + 3 || bins[size_t(k)] > n - w - 4) { o.discard = true; return; }
+        for (int j = 0; j < k; ++j) if (present[size_t(j)] && std::abs(bins[size_t(k)] - bins[size_t(j)]) < 2 * w + 4) { o.discard = true; return; }
+    }
+    const double scale = std::pow(10.0, c.getd("scale_db", 0) / 10);
+    const double floorv = c.geti("floor", 0) ? 1e-30 : 0.0;
+    dl::arr_real spec(n);
+    for (int i = 0; i < n; ++i) spec[i] = floorv * scale;
+    for (int k = 0; k < ncomp; ++k) {
+        if (!present[size_t(k)]) continue;
+        // symmetric, strictly unimodal lobe of total power pw[k]: weights (w+1-|d|)^2
+        ld tot = 0;
+        for (int d = -w; d <= w; ++d) tot += ld((w + 1 - std::abs(d)) * (w + 1 - std::abs(d)));
+        for (int d = -w; d <= w; ++d) spec[bins[size_t(k)] + d] = double(pw[size_t(k)] * ld((w + 1 - std::abs(d)) * (w + 1 - std::abs(d))) / tot) * scale;
+    }
+    const dl::SinadType ty = type ? dl::SinadType::Power : dl::SinadType::Psd;
+    const dl::ThdRes t = dl::thd(spec, ncomp, aliased != 0, ty);
+    ld hs = 0;
+    for (int k = 1; k < ncomp; ++k) if (present[size_t(k)]) hs += pw[size_t(k)];
+    const std::string tag = std::string(aliased ? "aliased" : "not-aliased") + (type ? ":power" : ":psd");
+    if (hs > 0) {
+        const ld want = 10 * log10l(hs / pw[0]);
+        o.metric("thd(spectrum) |err| / 1e-6 dB", double(fabsl(ld(t.value) - want) / 1e-6L));
+        if (!(fabsl(ld(t.value) - want) <= 1e-6L)) { o.fail("thd(spectrum):value:" + tag, fmt("n=%d b1=%d %d harmonics w=%d: thd = %.9f dB, the lobes' power ratio is %.9Lf dB", n, b1, nh, w, t.value, want)); return; }
+    }
+    if (t.harmpow.size() != ncomp || t.harmfreq.size() != ncomp) { o.fail("thd(spectrum):size", fmt("harmpow %d, harmfreq %d values for nharm=%d", t.harmpow.size(), t.harmfreq.size(), ncomp)); return; }
+    for (int k = 0; k < ncomp; ++k) {
+        if (!present[size_t(k)]) {
+            if (std::isfinite(t.harmpow[k]) && t.harmpow[k] > -250) { o.fail("thd(spectrum):harmonic-beyond-nyquist:" + tag, fmt("harmonic %d lies above Nyquist and aliasing is off, yet harmpow = %.3f dB", k + 1, t.harmpow[k])); return; }
+            continue;
+        }
+        const ld wantp = 10 * log10l(pw[size_t(k)] * ld(scale)), wantf = ld(bins[size_t(k)]) / (2.0L * n);
+        if (!(fabsl(ld(t.harmpow[k]) - wantp) <= 1e-6L)) { o.fail("thd(spectrum):harmpow:" + tag, fmt("n=%d b1=%d harmonic %d at bin %d: harmpow = %.9f dB, lobe power %.9Lf dB", n, b1, k + 1, bins[size_t(k)], t.harmpow[k], wantp)); return; }
+        if (!(fabsl(ld(t.harmfreq[k]) - wantf) <= 1e-9L)) { o.fail("thd(spectrum):harmfreq:" + tag, fmt("n=%d b1=%d harmonic %d: harmfreq = %.12f, lobe centre %.12Lf", n, b1, k + 1, t.harmfreq[k], wantf)); return; }
+    }
+    // scale invariance of all three on the same spectrum
+    dl::arr_real spec2 = spec * 1e-7;
+    const double s1 = dl::snr(spec, ncomp, aliased != 0, ty), s2 = dl::snr(spec2, ncomp, aliased != 0, ty);
+    const double q1 = dl::sinad(spec, ty), q2 = dl::sinad(spec2, ty);
+    const dl::ThdRes t2 = dl::thd(spec2, ncomp, aliased != 0, ty);
+    auto same_db = [](double a, double b) { return (std::isinf(a) && std::isinf(b) && (a > 0) == (b > 0)) || std::fabs(a - b) <= 1e-6; };
+    if (!same_db(t.value, t2.value)) { o.fail("thd(spectrum):scale", fmt("thd %.9f vs %.9f dB after scaling the spectrum by 1e-7", t.value, t2.value)); return; }
+    if (!same_db(s1, s2)) { o.fail("snr(spectrum):scale", fmt("snr %.9f vs %.9f dB after scaling the spectrum by 1e-7", s1, s2)); return; }
+    if (!same_db(q1, q2)) { o.fail("sinad(spectrum):scale", fmt("sinad %.9f vs %.9f dB after scaling the spectrum by 1e-7", q1, q2)); return; }
+    o.evals = 6;
+    int beyond = 0;
+    for (int k = 0; k < ncomp; ++k) beyond += (long(k + 1) * b1 >= n);
+    o.label(beyond == 0 ? "harmonics:all below Nyquist" : aliased ? "harmonics:some folded (aliased=true)" : "harmonics:some beyond Nyquist (aliased=false)");
+    o.label(type ? "type:Power" : "type:Psd");
+    o.nontrivial(key_of(n, b1, nh, w, aliased, type));
+}
+static void mspec_gen(Ctx& ctx) {
+    ctx.rc("random", ctx.by_tier(60000, 600000), [&]() {
+        const int n = pick(0, 2) == 0 ? (256 << pick(0, 6)) : pick_log(200, 20000);
+        const int hcount = pick(1, 5);
+        // half of the cases put the fundamental high enough for some harmonics to cross Nyquist
+        const int b1 = flip() ? pick(12, std::max(13, n / (hcount + 2))) : pick(n / (hcount + 1), std::max(n / (hcount + 1) + 1, n - 12));
+        return Json::object().set("n", n).set("b1", b1).set("h", hcount).set("w", pick(0, 4)).set("aliased", pick(0, 1)).set("type", pick(0, 1)).set("floor", pick(0, 1))
+          .set("scale_db", pick(0, 2) == 0 ? 0.0 : pickd(-120.0, 120.0)).set("seed", (long long)seed64());
+    });
+}
+
 // ------------------------------------------------------------------------------------------- rng replay
 namespace {
 
